@@ -1,0 +1,19 @@
+//go:build verif
+
+package composite
+
+// VerifYield, when set by the verification harness before any Runner is used, is called at the
+// named points of a reload so that a test controller can place Stop()/cancel there.
+// Compiled only with the build tag "verif".
+var VerifYield func(point string)
+
+func verifYield(point string) {
+	if f := VerifYield; f != nil {
+		f(point)
+	}
+}
+
+// VerifHasMembershipChanged exposes hasMembershipChanged to the correspondence check.
+func VerifHasMembershipChanged[T runnable](oldConfig, newConfig *Config[T]) bool {
+	return hasMembershipChanged(oldConfig, newConfig)
+}
